@@ -223,6 +223,11 @@ pub struct RelDecl {
 pub struct MacroParam {
    pub name: String,
    pub is_ident: bool,
+   /// type of the variable / expression the parameter stands for (the generator keeps call sites type-correct)
+   pub ty: Ty,
+   /// for ident parameters: "needs" (bound before the call), "soft" (plain clause variable: binds or joins),
+   /// "hard" (bound by a pattern / let / for / aggregate inside the macro: the call site must pass a fresh name)
+   pub role: String,
 }
 
 #[derive(Clone, Debug, Serialize, Deserialize, PartialEq, Eq, Hash)]
